@@ -181,13 +181,17 @@ REPR_TYPES = [int, Custom]
 class World:
     """one replay of a history on the real classes, in lock-step with the model"""
 
-    def __init__(self, root_name):
+    def __init__(self, root_name, predefined=False):
         self.root = getattr(yaml, root_name)
         self.is_loader = root_name in SHIPPED_LOADERS
         self.cls = {'R': self.root}
         self.model = Model()
         self.n = 0
         self.yobjs = []
+        if predefined:        # the lattice exists before the first registration (definitions do not use up history depth)
+            for nm in ('A', 'B', 'C'):
+                self.apply(('def', nm))
+            self.n = 0
 
     def enabled(self, e):
         k = e[0]
@@ -481,11 +485,11 @@ def canon_state(world):
     return hashlib.sha1(repr((sorted(world.cls), out, mod)).encode()).hexdigest()
 
 
-def check_history(T, root, hist, seen, depth_left, evs):
+def check_history(T, root, hist, seen, depth_left, evs, predefined=False):
     """replay hist on pristine classes, checking after every event; returns the world (for expansion)"""
     restore()
-    w = World(root)
-    case = {'root': root, 'history': [list(e) for e in hist]}
+    w = World(root, predefined)
+    case = {'root': root, 'history': [list(e) for e in hist], 'predefined': predefined}
     if T.trace: T.begin(case)
     T.evaluations += 1
     for step, e in enumerate(hist):
@@ -510,7 +514,7 @@ def check_history(T, root, hist, seen, depth_left, evs):
     return w
 
 
-def explore(T, root, first, depth, deep, first_filter=None):
+def explore(T, root, first, depth, deep, first_filter=None, predefined=False):
     is_loader = root in SHIPPED_LOADERS
     evs = events_for(is_loader, deep)
     seen = set()
@@ -519,7 +523,7 @@ def explore(T, root, first, depth, deep, first_filter=None):
     while frontier and level <= depth:
         nxt = []
         for hist in frontier:
-            w = check_history(T, root, hist, seen, depth - level, evs)
+            w = check_history(T, root, hist, seen, depth - level, evs, predefined)
             T.transitions += 1
             if w is None:
                 continue
@@ -559,6 +563,14 @@ def plan(tier, seed):
         evs = events_for(root in SHIPPED_LOADERS)
         for i, e in enumerate(evs):
             jobs.append(('hist', root, i, 2 if q else 3, False))
+    # lattice already defined: registration-only histories of length 3 (4 in thorough) over the lattice events
+    for ri, root in enumerate(LOADER_ROOTS + DUMPER_ROOTS):
+        evs = events_for(root in SHIPPED_LOADERS, True)
+        # quick: length 3 for one loader root and one dumper root (rotated by the seed), length 2 for the others
+        deep3 = (not q) or root == LOADER_ROOTS[seed % len(LOADER_ROOTS)] or root == DUMPER_ROOTS[seed % len(DUMPER_ROOTS)]
+        for i, e in enumerate(evs):
+            if e[0] != 'def':
+                jobs.append(('hist', root, i, 3 if deep3 else 2, True, True))
     if q:
         # the full event alphabet at depth 3 for one root, rotated by the seed (all roots at depth 3 in thorough)
         allroots = LOADER_ROOTS + DUMPER_ROOTS
@@ -575,9 +587,10 @@ def plan(tier, seed):
 
 def run_job(job, T):
     worker_init()
-    _, root, i, depth, deep = job
+    _, root, i, depth, deep = job[:5]
+    predefined = len(job) > 5 and job[5]
     evs = events_for(root in SHIPPED_LOADERS, deep)
-    explore(T, root, evs[i], depth, deep)
+    explore(T, root, evs[i], depth, deep, predefined=predefined)
     T.sample('histories', {'root': root, 'first': list(evs[i]), 'depth': depth, 'deep_subset': deep})
     T.count('traces_validated_against_impl', T.evaluations)
 
@@ -586,7 +599,7 @@ def replay(sub, case, T):
     worker_init()
     hist = tuple(tuple(e) for e in case['history'])
     for n in range(1, len(hist) + 1):
-        if check_history(T, case['root'], hist[:n], set(), 0, None) is None:
+        if check_history(T, case['root'], hist[:n], set(), 0, None, case.get('predefined', False)) is None:
             break
     restore()
 
